@@ -38,7 +38,8 @@ void h_kf_c05_reader(void) {
     static char txt[8]; int n = nondet_int(), i; __CPROVER_assume(n >= 0 && n <= 4);
     for (i = 0; i < 4; i++) { unsigned k = nondet_u8() % sizeof A; txt[i] = i < n ? A[k] : 0; }
     txt[n] = 0;
-    int dot_first = (n >= 1 && (txt[0] == '.' || ((txt[0] == '-') && n >= 2 && txt[1] == '.')));
+    int b0 = 0; while (b0 < n && txt[b0] == ' ') b0++;   /* leading white space belongs to the item */
+    int dot_first = (b0 < n && (txt[b0] == '.' || ((txt[b0] == '-') && b0 + 1 < n && txt[b0 + 1] == '.')));
 #ifdef CONFIRM
     __CPROVER_assume(dot_first);
 #else
@@ -53,24 +54,24 @@ void h_kf_c05_reader(void) {
     REACH("kf_c05_reader");
 }
 /* C05 / C08 at message level: fixed streams for two known findings */
-static int calls, errs;
+static int calls, nerrs;
 static scpi_result_t hI(scpi_t *c) { calls++; SCPI_ResultInt32(c, 5); return SCPI_RES_OK; }
 static scpi_result_t hS(scpi_t *c) { int32_t v; calls++; if (!SCPI_ParamInt32(c, &v, TRUE)) return SCPI_RES_ERR; return SCPI_RES_OK; }
-static int ecb(scpi_t *c, int_fast16_t e) { (void)c; if (e) errs++; return 0; }
+static int ecb(scpi_t *c, int_fast16_t e) { (void)c; if (e) nerrs++; return 0; }
 static const scpi_command_t CMDS[] = { {"*IDN?", hI, 0}, {"TEST:SET", hS, 0}, SCPI_CMD_LIST_END };
 static char ib[48];
-static void init(void) { static scpi_interface_t it2 = { ecb, nowrite, NULL, NULL, NULL }; SCPI_Init(&ctx, CMDS, &it2, NULL, "a", "b", "c", "d", ib, sizeof ib, queue, 4); calls = 0; errs = 0; }
+static void init(void) { static scpi_interface_t it2 = { ecb, nowrite, NULL, NULL, NULL }; SCPI_Init(&ctx, CMDS, &it2, NULL, "a", "b", "c", "d", ib, sizeof ib, queue, 4); calls = 0; nerrs = 0; }
 void h_kf_c05_block_flush(void) {
     /* text after the header that is not well-formed program data must not reach the handler silently */
     static const char S[] = "*IDN? #15ab"; init();
     SCPI_Input(&ctx, S, sizeof S - 1); SCPI_Input(&ctx, NULL, 0);
-    __CPROVER_assert(calls == 0 || errs >= 1, "C05: a unit with malformed program data queues a command error");
+    __CPROVER_assert(calls == 0 || nerrs >= 1, "C05: a unit with malformed program data queues a command error");
     REACH("kf_c05_block_flush");
 }
 void h_kf_c08_quoted_newline(void) {
     static const char S[] = "TEST:SET \"a\nb\"\n"; int cut = nondet_int(); __CPROVER_assume(cut >= 1 && cut < (int) sizeof S - 1);
-    init(); SCPI_Input(&ctx, S, sizeof S - 1); int c1 = calls, e1 = errs;
+    init(); SCPI_Input(&ctx, S, sizeof S - 1); int c1 = calls, e1 = nerrs;
     init(); SCPI_Input(&ctx, S, cut); SCPI_Input(&ctx, S + cut, (int) sizeof S - 1 - cut);
-    __CPROVER_assert(calls == c1 && errs == e1, "C08: same handler invocations and errors for every split point");
+    __CPROVER_assert(calls == c1 && nerrs == e1, "C08: same handler invocations and errors for every split point");
     REACH("kf_c08_quoted_newline");
 }
